@@ -3,6 +3,7 @@ package props
 import (
 	"context"
 	"fmt"
+	"os"
 	"testing/synctest"
 	"time"
 
@@ -47,7 +48,7 @@ func runC05(c *core.Ctx) {
 	cfg.BlockRequestDelay = config.NewDuration(delay)
 	nm := bitcoin_reader.NewNodeManager("/sim/", cfg, repo, book)
 	rec := bw.NewRecorder()
-	req := &bw.Requestor{}
+	req := &bw.Requestor{IsProcessed: rec.IsProcessed}
 	bm := bitcoin_reader.NewBlockManager(rec, req, concurrent, delay)
 	nm.SetBlockManager(rec, bm, rec)
 	interrupt := make(chan interface{})
@@ -119,6 +120,14 @@ func runC05(c *core.Ctx) {
 		for ; seenReq < len(req.Requests); seenReq++ {
 			h := req.Requests[seenReq]
 			n := byHash[h]
+			if n != nil {
+				c.Note("request #%d for block h=%d (processed at that moment: %v)", seenReq, n.height, req.ProcessedAtRequest[seenReq])
+				for _, sx := range req.All() {
+					if !sx.Returned && !(sx.Cancelled && !sx.Started) && !sx.Dropped {
+						c.Note("    live source%d started=%v cancelled=%v ended=%v", sx.N, sx.Started, sx.Cancelled, sx.Ended)
+					}
+				}
+			}
 			if n == nil {
 				c.Fail("c05.requests-known-blocks", "unknown", "a block that is not in the header chain was requested")
 				continue
@@ -126,13 +135,15 @@ func runC05(c *core.Ctx) {
 			if n.height < startHeight {
 				c.Fail("c05.never-below-start-height", fmt.Sprintf("height-%d", startHeight-n.height), "block at height %d was requested, start height is %d", n.height, startHeight)
 			}
-			if _, done := processedAt[h]; done {
-				c.Fail("c05.never-request-processed-block", "already-processed", "block at height %d was requested although it is recorded as processed", n.height)
-			}
-			if _, pre := rec.Processed[h]; pre && processedAt[h] == 0 {
+			firstOfEpisode := seenReq == 0 || req.Requests[seenReq-1] != h
+			// With more than one concurrent download the manager may decide to add a download while the
+			// first is finishing; only the first request of an episode is held to the rule then.
+			if req.ProcessedAtRequest[seenReq] && (concurrent == 1 || firstOfEpisode) {
+				cls := "already-processed"
 				if _, mine := processedAt[h]; !mine {
-					c.Fail("c05.never-request-processed-block", "pre-processed", "block at height %d was requested although it was recorded as processed before the run", n.height)
+					cls = "pre-processed"
 				}
+				c.Fail("c05.never-request-processed-block", cls, "block at height %d was requested although it was recorded as processed at that moment", n.height)
 			}
 		}
 		// processing order
@@ -146,6 +157,7 @@ func runC05(c *core.Ctx) {
 			if n == nil {
 				continue
 			}
+			c.Note("block h=%d processed (call %d)", n.height, seenCalls)
 			if prev, again := processedAt[cl.Block]; again {
 				if concurrent == 1 {
 					c.Fail("c05.each-block-once", "processed-twice", "block at height %d was processed twice (first as call %d)", n.height, prev)
@@ -166,7 +178,79 @@ func runC05(c *core.Ctx) {
 		}
 	}
 
-	nm.MarkStartupDelayComplete(ctx)
+	// Engine F (instrumented build only): the synchroniser, block manager and downloaders run under
+	// the tape's scheduler, so a trigger or a new header can land in the middle of a synchronisation round
+	var fd *core.FDriver
+	if core.FAvailable() {
+		fd = core.NewFDriver(t)
+		sch := fd.S
+		sch.Install()
+		defer sch.Uninstall()
+		defer sch.Off()
+		if os.Getenv("VERIF_FTRACE") == "1" {
+			fd.Trace = func(site string, n int) { c.Note("    resume %s (of %d runnable)", site, n) }
+		}
+		defer func() {
+			c.SetInterleaving(sch.Hash(), sch.Steps())
+			c.FaultN("schedule:goroutine-stalled", fd.Holds)
+		}()
+	}
+	early := 0
+	settle := func() bool {
+		if fd != nil {
+			before := fd.S.Steps()
+			idle := fd.Settle(early, 300000)
+			if n := fd.S.Steps() - before; n > 0 {
+				c.Note("scheduler: %d steps, idle=%v (early stop rate %d), %d goroutines stalled by the fault plan", n, idle, early, fd.HeldCount())
+				for _, w := range fd.Parked() {
+					c.Note("   parked: %s lock=%v runnable=%v", w.Site, w.Lock, w.Runnable)
+				}
+			}
+			return idle
+		}
+		synctest.Wait()
+		return true
+	}
+	driverCall := func(f func()) (ok bool) {
+		if fd == nil {
+			f()
+			return true
+		}
+		defer func() {
+			if r := recover(); r != nil {
+				ok = false
+			}
+		}()
+		fd.S.DriverCall(f)
+		return true
+	}
+	// advance lets simulated time pass. Under Engine F instrumented goroutines only run when the
+	// driver resumes them, so time passes in slices of 250 ms with the system run to idle in between
+	// (interleavings are explored at one instant; a goroutine is never held across a time slice).
+	advance := func(d time.Duration) {
+		if fd == nil {
+			time.Sleep(d)
+			return
+		}
+		for d > 0 {
+			early = 0
+			settle()
+			chunk := 250 * time.Millisecond
+			if d < chunk {
+				chunk = d
+			}
+			time.Sleep(chunk)
+			d -= chunk
+		}
+		// what the last slice woke up (timers) is left to the scheduler, so that the next action can
+		// land in the same instant, in the middle of the reaction to a timer
+	}
+	trigger := func() {
+		if !driverCall(func() { nm.TriggerBlockSynchronize(ctx) }) {
+			c.Probe("trigger-deferred-lock-busy")
+		}
+	}
+	driverCall(func() { nm.MarkStartupDelayComplete(ctx) })
 	c.Event("startup delay complete (sync triggered)")
 	noneUntil := time.Time{}
 	serve := func(faulty bool) bool {
@@ -179,6 +263,7 @@ func runC05(c *core.Ctx) {
 				select {
 				case err := <-s.Done:
 					s.Returned = true
+					c.Note("source%d handler returned %v (cancelled=%v)", s.N, err, s.Cancelled)
 					if err == nil {
 						handlerOK[s.Hash] = true
 					}
@@ -200,7 +285,7 @@ func runC05(c *core.Ctx) {
 					s.Dropped = true
 					c.Fault("source:drop-before-start")
 					c.Event("source%d drops before start", s.N)
-					s.OnStop(ctx)
+					go s.OnStop(ctx)
 					return true
 				}
 				b := n.blk
@@ -225,7 +310,7 @@ func runC05(c *core.Ctx) {
 					c.Fault("source:drop-mid-block")
 					close(s.Ch)
 					s.Ended = true
-					s.OnStop(ctx)
+					go s.OnStop(ctx)
 				} else {
 					close(s.Ch)
 					s.Ended = true
@@ -244,7 +329,11 @@ func runC05(c *core.Ctx) {
 	}
 
 	step := func(faulty bool) {
-		synctest.Wait()
+		early = 0
+		if faulty && fd != nil {
+			early = 20
+		}
+		settle()
 		check()
 		acts := []int{10, 5, 0, 0, 0}
 		if faulty {
@@ -254,19 +343,19 @@ func runC05(c *core.Ctx) {
 		case 0:
 			if !serve(faulty) {
 				d := []time.Duration{time.Second, delay, 10 * time.Second}[t.Draw(3)]
-				time.Sleep(d)
+				advance(d)
 				c.AddSimTime(int64(d))
 				c.Event("advance %v (idle)", d)
 			}
 		case 1:
 			d := []time.Duration{time.Second, delay, 10 * time.Second, time.Minute}[t.Draw(4)]
-			time.Sleep(d)
+			advance(d)
 			c.AddSimTime(int64(d))
 			c.Event("advance %v", d)
 		case 2: // the chain grows
 			nt := mint(bestTip(), false)
 			submit(nt)
-			nm.TriggerBlockSynchronize(ctx)
+			trigger()
 			c.Event("new block h=%d (trigger)", nt.height)
 			c.Probe("new-header-during-sync")
 		case 3: // reorg: a heavier fork from a few blocks below the tip
@@ -283,7 +372,7 @@ func runC05(c *core.Ctx) {
 			}
 			x = mint(x, true)
 			submit(x)
-			nm.TriggerBlockSynchronize(ctx)
+			trigger()
 			c.Event("reorg from h=%d: new tip h=%d", fp.height, x.height)
 			c.Fault("reorg")
 			if !onBest(bt) {
@@ -312,6 +401,9 @@ func runC05(c *core.Ctx) {
 		}
 	}
 	if gaveUp {
+		if fd != nil {
+			fd.S.Off()
+		}
 		synctest.Wait()
 		check()
 		c.Nontrivial()
@@ -332,8 +424,11 @@ func runC05(c *core.Ctx) {
 	}
 	// fault free epilogue: honest sources; every best-chain block from the start height must get processed
 	noneUntil = time.Time{}
+	if fd != nil {
+		fd.ReleaseAll()
+	}
 	epilogueStart := time.Now()
-	nm.TriggerBlockSynchronize(ctx)
+	trigger()
 	missing := func() []int {
 		var out []int
 		for x := bestTip(); x != nil && x.height >= startHeight && x.height > 0; x = x.parent {
@@ -363,7 +458,7 @@ func runC05(c *core.Ctx) {
 			break
 		}
 		if i%20 == 19 {
-			nm.TriggerBlockSynchronize(ctx) // a new header arrives now and then (MonitorHeaders would do this)
+			trigger() // a new header arrives now and then (MonitorHeaders would do this)
 		}
 		if len(missing()) == 0 && bestTip().height >= startHeight {
 			break
@@ -372,10 +467,16 @@ func runC05(c *core.Ctx) {
 			break
 		}
 	}
+	early = 0
+	settle()
+	if fd != nil {
+		fd.S.Off()
+	}
 	synctest.Wait()
 	check()
 	c.Nontrivial()
 	if ms := missing(); len(ms) > 0 && bestTip().height >= startHeight && !gaveUp {
+		c.Diag("goroutines at the end:\n%s", core.BlockedGoroutines())
 		c.Fail("c05.sync-completes-after-faults-stop", fmt.Sprintf("missing=%d", min(len(ms), 3)), "with honest sources and no further faults, best-chain blocks at heights %v were not processed within %d simulated minutes", ms, 30*(bestTip().height+2))
 	} else {
 		c.Probe("sync-complete")
@@ -407,9 +508,10 @@ func init() {
 		Real: append([]string{"NodeManager.TriggerBlockSynchronize / runSynchronizeBlocks / synchronizeBlocks (real code)", "headers.Repository (real code)"}, blockReal...), Stub: blockStub,
 		Assumptions: []string{"header arrival is modelled by direct ProcessHeader calls plus TriggerBlockSynchronize (what MonitorHeaders does for an in-sync node)",
 			"liveness is checked only in the fault-free epilogue, with a budget of 30 simulated minutes per block"},
-		FaultKinds: []string{"reorg", "source:none-available", "source:wrong-block", "source:stream-cut", "source:drop-before-start", "source:drop-mid-block"},
-		ProbeNames: []string{"block-processed", "new-header-during-sync", "reorg-orphaned-old-tip", "sync-complete", "block-manager-gave-up", "block-processed-twice-with-concurrent-downloads"},
+		FaultKinds:   []string{"reorg", "source:none-available", "source:wrong-block", "source:stream-cut", "source:drop-before-start", "source:drop-mid-block"},
+		ProbeNames:   []string{"block-processed", "new-header-during-sync", "reorg-orphaned-old-tip", "sync-complete", "block-manager-gave-up", "block-processed-twice-with-concurrent-downloads"},
 		Run:          runC05,
-		QuickSeconds: 25, ThoroughSeconds: 900, MinRuns: 200, BatchSize: 20, RunTimeoutSeconds: 300,
+		QuickSeconds: 20, ThoroughSeconds: 700, MinRuns: 200, BatchSize: 20, RunTimeoutSeconds: 300,
+		FQuickSeconds: 15, FThoroughSeconds: 500,
 	})
 }
